@@ -9,6 +9,19 @@ class CMakeSyntaxError(SyntaxError):
     pass
 
 
+class LexerErrorListener(ErrorListener):
+    """
+    Listens for lexer errors and raises :class:`CMakeSyntaxError`, so that
+    no source character is silently dropped from the token stream.
+    """
+
+    def syntaxError(self, recognizer, offendingSymbol, line, column, msg, e):
+        s = CMakeSyntaxError()
+        s.lineno = f"{line}:{column}"
+        s.msg = msg
+        raise s
+
+
 class ParserErrorListener(ErrorListener):
     """
     Listens for parser errors and raises exceptions when they occur.
